@@ -893,6 +893,27 @@ def r29_deasync(toks, log):
             log.add("R29", t, ".await")
             i += 2
             continue
+        # R29b: `tokio::time::timeout(D, async { BODY }).await?` -> `{ verif_timeout(D)?; BODY }`: the deadline may strike (Err) - modelled as striking
+        # before BODY runs; a `?` inside BODY leaves the function with the same error the original returns through the async block.
+        # Only sound where the expression is the value the function returns, which is checked here: it must be followed by `}` closing the fn body.
+        if t.text == "tokio" and i + 6 < n and [x.text for x in toks[i + 1:i + 6]] == ["::", "time", "::", "timeout", "("]:
+            c = match_close(toks, i + 5)
+            # split args at the top-level comma
+            d = 0; comma = None
+            for k in range(i + 6, c):
+                x = toks[k].text
+                if x in OPEN: d += 1
+                elif x in (")", "]", "}"): d -= 1
+                elif x == "," and d == 0 and comma is None: comma = k
+            if comma is not None and toks[comma + 1].text == "async" and toks[comma + 2].text == "{" and match_close(toks, comma + 2) in (c - 1, c - 2) \
+                    and [x.text for x in toks[c + 1:c + 4]] == [".", "await", "?"] and toks[c + 4].text == "}":
+                bo = comma + 2; bc = match_close(toks, bo)
+                log.add("R29", t, "timeout(.., async {..}).await? in return position")
+                out += gen("{ verif_timeout(", t) + [x.clone() for x in toks[i + 6:comma]] + gen(")?;", toks[comma], "")
+                out += r29_deasync([x.clone() for x in toks[bo + 1:bc]], log)
+                out += gen("}", toks[bc], toks[bc].ws)
+                i = c + 4
+                continue
         if t.text == "tokio" and i + 4 < n and [x.text for x in toks[i + 1:i + 4]] == ["::", "select", "!"] and toks[i + 4].text == "{":
             c = match_close(toks, i + 4)
             inner = toks[i + 5:c]
